@@ -9,13 +9,14 @@ SCOPE = {"distance", "distance_other"}
 N_QUICK = 250
 N_THOROUGH = 5000
 RULE = ("random perfect-recall trees (incl. trees where a player has no multi-action infoset) x pairs of imported profiles "
-        "(identical / different pure / random / with zeros) x p in {1e-3, 0.5, 1, 2, 10, 50, inf, 0, -1, NaN} plus a profile of a "
+        "(identical / different pure / random / with zeros) x p in {1e-3, 0.5, 1, 2, 10, 50, inf, 0, -1, NaN, subnormal and smallest-normal positive, 1e-300, 1e300, f64::MAX, -5e-324, -0.0} plus a profile of a "
         "second Game built from the same tree (must panic); non-trivial = the two profiles differ in some infoset and p > 0; "
         "distinct by (tree, profiles, p) hash")
 ASSUMPTIONS = ["for large p a positive |d|^p underflows to 0 in binary64, so 'positive when they differ' is monitored only while "
                "min|d|^p >= 1e-300 (binary64-range class, DESIGN 9)",
                "the different-games panic is observed on the implementation only (the model's distance takes one game by construction)"]
-PS = [1e-3, 0.5, 1.0, 2.0, 10.0, 50.0, float("inf"), 0.0, -1.0, float("nan")]
+PS = [1e-3, 0.5, 1.0, 2.0, 10.0, 50.0, float("inf"), 0.0, -1.0, float("nan"),
+      5e-324, 1e-310, 2.2250738585072014e-308, 1e-300, 1e300, 1.7976931348623157e308, -5e-324, -0.0, 1.0, 1.0, 2.0, 0.5]
 
 
 def build(cid, t, st, na, nb, p, other=False):
@@ -47,7 +48,7 @@ def generate(rng, tier, n):
             nb = na
         else:
             nb = random_named(rng, t, "pure" if style_a == "pure" and rng.random() < 0.7 else None)
-        for p in (PS if tier == "thorough" else rng.sample(PS, 4)):
+        for p in (PS if tier == "thorough" else rng.sample(PS, 5)):
             cases.append(build(cid, t, st, na, nb, p, other=(rng.random() < 0.15)))
             cid += 1
             if len(cases) >= n:
